@@ -206,6 +206,7 @@ type NodeSnap struct {
 	Store map[string]string `json:"store"`           // key rank -> simple value
 	Kids  map[string][]string `json:"kids,omitempty"` // key rank -> sorted children
 	Fing  []int          `json:"fing,omitempty"`
+	FS    []int          `json:"fs"` // distinct ranks named by the finger table
 	Hist  []string       `json:"hist,omitempty"`
 }
 
@@ -244,6 +245,18 @@ func (r *Ring) Snapshot(withFingers bool, withHist bool) map[string]NodeSnap {
 				s.Kids[kr] = l
 			}
 		}
+		// the distinct nodes named by the finger table (what stabilize can fall back on when its successor list is dead)
+		seen := map[int]bool{}
+		s.FS = []int{}
+		for k := 1; k <= chord.MaxFingerEntries; k++ {
+			if f := n.VerifFinger(k); f != nil {
+				if rk := r.rk(f); !seen[rk] {
+					seen[rk] = true
+					s.FS = append(s.FS, rk)
+				}
+			}
+		}
+		sort.Ints(s.FS)
 		if withFingers {
 			for k := 1; k <= chord.MaxFingerEntries; k++ {
 				s.Fing = append(s.Fing, r.rk(n.VerifFinger(k)))
